@@ -9,6 +9,13 @@ The sampling-frequency axis has two parts: whole numbers of Hz (1, 100; full lat
 whole number of Hz (0.64 ... 102.4 Hz, `FS_FRAC`; the property says "any fs"), walked on a covering sub-lattice (every
 admissible (nxseg, f_n/fs, xi) x every such rate x both methods x both routes, channels and band rotating with the lattice
 coordinates, level 1).
+
+Third route, the interactive entry point: `EFDD/FSDD.mpe_from_plot` with the REAL dialog (`SelFromPlot`; only the tkinter widgets
+are inert stand-ins, the figure, the Matplotlib callback registry and the handlers are the library's). The "user" holds SHIFT and
+clicks with the left button on the peak of the exact bell. The frequency range the dialog is opened with (`freqlim`) is an axis:
+default, (0, x) and several (lo, hi) with lo > 0 (`VIEWS`), on a covering sub-lattice (every admissible (nxseg, f_n/fs, xi) x every
+view x both methods, level 1 - in the quick tier the views with lower limit 0 take one method per point, rotating; fs over all
+rates of both parts of the fs axis, channels, band, call form and click abscissa rotating).
 """
 import numpy as np
 
@@ -26,7 +33,9 @@ RULE = ("a case is one admissible lattice point (nxseg, f_n/fs, xi, channels, fs
         "at level 1, through the setup class as well; admissible = half-power bandwidth 2 xi f_n spans >= 4 lines and the half "
         "record holds >= 30 periods, decided from (f_n, xi, nxseg, fs) only; every admissible case is non-trivial (the estimate "
         "comes from a fit of 20 correlation extrema of the inverse-transformed bell); distinct by lattice coordinates; the points at a "
-        "sampling rate that is not a whole number of Hz are judged at level 1 only (function and setup class)")
+        "sampling rate that is not a whole number of Hz are judged at level 1 only (function and setup class); the points of the "
+        "interactive route (mpe_from_plot through the real dialog) are one (nxseg, f_n/fs, xi, view, method) each, level 1, distinct by "
+        "these coordinates")
 ASSUMPTIONS = [
     "the spectral matrix is S(f) phi phi^T + 1e-9 max(S) I with S(f) = 1/((wn^2-w^2)^2 + (2 xi wn w)^2) on the grid k fs/nxseg, "
     "k = 0..nxseg/2 (periodogram convention)",
@@ -38,6 +47,17 @@ ASSUMPTIONS = [
     "(nxseg, f_n/fs, xi) x every such rate x both methods x both routes at level 1, with the channel count (and, in the quick tier, the "
     "band) rotating with the lattice coordinates so that every (rate, channels) and (rate, band) pair occurs; an error that needs a "
     "particular (channels, band, level) together with a non-integer rate can be missed",
+    "interactive route (EFDD/FSDD.mpe_from_plot): tkinter widgets are replaced by inert stand-ins whose mainloop() delivers the events "
+    "(press SHIFT, left click, release SHIFT) through the real Matplotlib callback registry of the dialog's figure; everything else is the "
+    "library's. The click is at the peak of the exact bell (abscissa f_n, or the frequency line where the designed S(f) is largest; the "
+    "ordinate, in dB, must not matter), so the 'analysis band covers the bell' premise holds from the user's side. The frequency range the "
+    "dialog is opened with (freqlim) is walked over the family VIEWS - default None, (0, fs/2) written out, (0, hi), and (lo, hi) with "
+    "lo > 0: half a line, a quarter and a half of f_n, a window of 1.5 DF2 around the bell - all from (f_n, xi, nxseg, fs) only; the peak "
+    "is inside every view. Covering sub-lattice: every admissible (nxseg, f_n/fs, xi) x every view x both methods at level 1 (quick tier: the three views with "
+    "lower limit 0 take one method per point, rotating, so that every (view, method) pair still occurs); the sampling "
+    "rate (all whole and non-whole rates), channels, band (quick tier), call form (setup.mpe_from_plot / algorithm.mpe_from_plot, limits as "
+    "float / as int where whole) and click abscissa rotate with the lattice coordinates; an error that needs a particular combination of "
+    "these with a view can be missed. One click per session (one mode in the spectrum); pan/zoom of the toolbar is not exercised",
 ]
 
 NXSEG = (1024, 2048, 4096, 8192)
@@ -179,6 +199,205 @@ def setup_route(t, seed, nxseg, fs, meth, freq, Sy, fn, xi, phi, DF1, DF2, case)
     judge(t, "setup", meth, fn, xi, phi, Fn, Xi, Phi, dict(case, route="setup"))
 
 
+# ---- interactive entry point: mpe_from_plot through the real dialog, head-less ------------------------------------------
+# The frequency range the dialog is opened with, from ground truth only: (f_n, fs, line spacing df, analysis band DF2) -> freqlim.
+# The peak of the bell lies inside every view; "lines hidden below" is what distinguishes the views with lo > 0.
+VIEWS = (
+    ("default", lambda fn, fs, df, DF2: None),
+    ("(0, fs/2) written out", lambda fn, fs, df, DF2: (0.0, fs / 2)),
+    ("(0, hi)", lambda fn, fs, df, DF2: (0.0, min(fn + 2 * DF2, fs / 2))),
+    ("(half a line, fs/2)", lambda fn, fs, df, DF2: (0.5 * df, fs / 2)),
+    ("(fn/4, fs/2)", lambda fn, fs, df, DF2: (0.25 * fn, fs / 2)),
+    ("(fn/2, 3fn/2)", lambda fn, fs, df, DF2: (0.5 * fn, min(1.5 * fn, fs / 2))),
+    ("bell -+ 1.5 DF2", lambda fn, fs, df, DF2: (fn - 1.5 * DF2, min(fn + 1.5 * DF2, fs / 2))),
+)
+FS_ALL = (1.0, 100.0) + FS_FRAC
+CLICKS = ("at f_n", "at the line of the largest S")
+FORMS = ("setup.mpe_from_plot", "algorithm.mpe_from_plot")
+_DLG = {"installed": False, "script": None, "obj": None}
+
+
+def install_dialog():
+    """Inert stand-ins for the tkinter widgets of pyoma2.support.sel_from_plot; mainloop() hands control to the script. The canvas
+    stand-in is a real FigureCanvasAgg, so the dialog's own mpl_connect registrations receive the events."""
+    if _DLG["installed"]:
+        return
+    from matplotlib.backends.backend_agg import FigureCanvasAgg
+
+    import pyoma2.support.sel_from_plot as sfp
+
+    class FakeTk:
+        def __init__(self, *a, **k):
+            pass
+
+        def title(self, *a):
+            pass
+
+        def config(self, **k):
+            pass
+
+        def protocol(self, *a):
+            pass
+
+        def mainloop(self):
+            _DLG["script"](_DLG["obj"])
+
+        def quit(self):
+            pass
+
+        def destroy(self):
+            pass
+
+    class FakeMenu:
+        def __init__(self, *a, **k):
+            pass
+
+        def add_command(self, **k):
+            pass
+
+        def add_cascade(self, **k):
+            pass
+
+    class W:
+        def pack(self, **k):
+            pass
+
+    class FakeCanvas(FigureCanvasAgg):
+        def __init__(self, fig, root=None, master=None):
+            super().__init__(fig)
+
+        def get_tk_widget(self):
+            return W()
+
+        def draw_idle(self, *a, **k):
+            pass
+
+    sfp.tk.Tk = FakeTk
+    sfp.tk.Menu = FakeMenu
+    sfp.FigureCanvasTkAgg = FakeCanvas
+    sfp.NavigationToolbar2Tk = lambda c, r: None
+    orig = sfp.SelFromPlot._initialize_gui
+
+    def wrapped(self):
+        orig(self)
+        _DLG["obj"] = self
+
+    sfp.SelFromPlot._initialize_gui = wrapped
+    _DLG["installed"] = True
+
+
+def _session(x, y):
+    """The user's session: hold SHIFT, left click at data coordinates (x, y), release SHIFT, close the window."""
+    from matplotlib.backend_bases import KeyEvent, MouseEvent
+
+    def script(o):
+        c = o.fig.canvas
+        c.callbacks.process("key_press_event", KeyEvent("key_press_event", c, "shift"))
+        e = MouseEvent("button_press_event", c, 0, 0, button=1)
+        e.xdata, e.ydata, e.inaxes = x, y, o.ax2
+        c.callbacks.process("button_press_event", e)
+        c.callbacks.process("key_release_event", KeyEvent("key_release_event", c, "shift"))
+
+    return script
+
+
+def _limits(fl, as_int):
+    """freqlim as the user may write it: a tuple of float, or of int where the limit is a whole number."""
+    if fl is None or not as_int:
+        return fl
+    return tuple(int(round(v)) if abs(v - round(v)) < 1e-9 else float(v) for v in fl)
+
+
+def plot_case(t, seed, nxseg, frel, xi, nch, fs, band, meth, view, click, form, as_int):
+    """One session of the interactive entry point on the designed matrix, judged with the accuracy oracle."""
+    from pyoma2 import algorithms as A
+    from pyoma2.functions import fdd
+    from pyoma2.setup import SingleSetup
+
+    case = {"seed": seed, "nxseg": nxseg, "frel": frel, "xi": xi, "nch": nch, "fs": fs, "band": band, "method": meth,
+            "route": "plot", "view": view, "click": click, "form": form, "limits_as_int": as_int}
+    if not admissible(frel, xi, nxseg):
+        t.skipped_by_guard += 1
+        return
+    t.states += 1
+    install_dialog()
+    freq, fn, phi, Sy = design(seed, nxseg, frel, xi, nch, fs)
+    df = fs / nxseg
+    bw = 2 * xi * fn
+    DF1, DF2 = max(2 * df, 0.1 * bw), band * bw
+    fl = _limits(dict(VIEWS)[view](fn, fs, df, DF2), as_int)
+    # the abscissa of the click, from the designed scalar density only
+    w, wn = 2 * np.pi * freq, 2 * np.pi * fn
+    S = 1.0 / ((wn**2 - w**2) ** 2 + (2 * xi * wn * w) ** 2)
+    x = fn if click == CLICKS[0] else float(freq[int(np.argmax(S))])
+    y = -3.0 - 7.0 * ([v for v, _ in VIEWS].index(view) % 3)           # dB, must not matter
+    case["freqlim"] = None if fl is None else list(fl)
+    case["click_x"] = x
+    if fl is not None and not (fl[0] < x < fl[1]):
+        t.violation("harness:peak-outside-view", f"view {fl} does not contain the click at {x}", case)
+        return
+    hidden = 0 if fl is None else int(np.sum(freq < fl[0]))            # lines the view hides below its lower limit (truth)
+    alg = getattr(A, meth)(name="a", nxseg=nxseg, method_SD="per")
+    ss = SingleSetup(payload.normal(seed, "c07/dummy", (64, nch)), fs)
+    ss.add_algorithms(alg)
+    orig = fdd.SD_est
+    fdd.SD_est = lambda *a, **k: (freq.copy(), Sy.copy())
+    _DLG["script"], _DLG["obj"] = _session(x, y), None
+    t.evaluations += 1
+    try:
+        try:
+            ss.run_by_name("a")
+        finally:
+            fdd.SD_est = orig
+        if form == FORMS[0]:
+            ss.mpe_from_plot("a", DF1=DF1, DF2=DF2, freqlim=fl)
+        else:
+            alg.mpe_from_plot(DF1=DF1, DF2=DF2, freqlim=fl)
+        res = alg.result
+        Fn, Xi, Phi = res.Fn, res.Xi, res.Phi
+    except Exception as e:
+        t.violation(f"raises:{type(e).__name__}:{meth}.run/mpe_from_plot", f"{e!r} with freqlim={fl}, click at {x:.6g}", case)
+        return
+    finally:
+        o = _DLG["obj"]
+        if o is not None:
+            try:
+                o.fig.clear()
+            except Exception:
+                pass
+        _DLG["obj"] = None
+    n0 = sum(v[0] for v in t.violations.values())
+    r = judge(t, "plot", meth, fn, xi, phi, Fn, Xi, Phi, case)
+    ok = r is not None and sum(v[0] for v in t.violations.values()) == n0
+    t.outcomes[f"{meth} {'within' if ok else 'outside'} tolerance, dialog opened with {view}"] += 1
+    if hidden:
+        t.outcomes[f"{'within' if ok else 'outside'} tolerance, click on a view that hides lines below it ({meth})"] += 1
+        if hidden >= 10:
+            t.outcomes[f"{'within' if ok else 'outside'} tolerance, view hides >= 10 lines below it ({meth})"] += 1
+    t.outcomes[f"{'within' if ok else 'outside'} tolerance, {form}, click {click}"] += 1
+    t.nontrivial.add(("plot", nxseg, frel, xi, view, meth))
+
+
+def plot_points(nxseg, frel, xi, thorough):
+    """The covering sub-lattice of the interactive route at one (nxseg, f_n/fs, xi): every view x both methods; sampling rate,
+    channels, band, click abscissa, call form and int/float limits rotate with the lattice coordinates only. The thorough tier
+    takes both bands; the quick tier takes, for the three views whose lower limit is 0 (index k < 3), one method per point, rotating."""
+    i = NXSEG.index(nxseg), FREL.index(frel), XI.index(xi)
+    out = []
+    for k, (view, _) in enumerate(VIEWS):
+        for m, meth in enumerate(METHODS):
+            if not thorough and k < 3 and m != (i[1] + i[2] + k) % 2:
+                continue
+            fs = FS_ALL[(i[1] + 3 * i[2] + k + 4 * m) % len(FS_ALL)]
+            nch = NCH[(i[1] + i[2] + k) % len(NCH)]
+            bands = BANDS if thorough else (BANDS[(sum(i) + k + m) % len(BANDS)],)
+            click = CLICKS[(i[1] + k) % 2]
+            form = FORMS[(i[2] + k + m) % 2]
+            as_int = bool((i[0] + i[1] + k) % 2)
+            out += [(nch, fs, band, meth, view, click, form, as_int) for band in bands]
+    return out
+
+
 def frac_points(nxseg, frel, xi, thorough):
     """The covering sub-lattice of the non-integer sampling rates at one (nxseg, f_n/fs, xi): (fs, channels, band) triples.
     Channels and band rotate with the lattice coordinates only (no payload, no hash order); the thorough tier takes both bands."""
@@ -194,6 +413,10 @@ def frac_points(nxseg, frel, xi, thorough):
 def item(it):
     seed, nxseg, frel, xi, fss, nchs = it[:6]
     t = Tally()
+    if len(it) > 7:                                  # interactive route: it[6] = thorough flag, it[7] = "dialog"
+        for p in plot_points(nxseg, frel, xi, it[6]):
+            plot_case(t, seed, nxseg, frel, xi, *p)
+        return t
     if len(it) > 6:                                  # non-integer sampling rates: it[6] = thorough flag
         for fs, nch, band in frac_points(nxseg, frel, xi, it[6]):
             for meth in METHODS:
@@ -220,7 +443,17 @@ def explore(ctx):
                        "NCH[(i_f + i_xi + k) mod 3], band = " + ("both" if ctx.thorough else "BANDS[(i_nxseg + i_f + i_xi + k) mod 2]")
                        + " with i_* the indices on the axes and k the index of fs",
                        "DF2 (bandwidths)": list(BANDS), "method": list(METHODS), "level (factor on Sy)": list(SCALES),
-                       "routes": ["fdd.EFDD_mpe", "EFDD/FSDD class in SingleSetup (level 1)"],
+                       "routes": ["fdd.EFDD_mpe", "EFDD/FSDD class in SingleSetup (level 1)",
+                                  "EFDD/FSDD.mpe_from_plot through the real dialog, head-less (level 1)"],
+                       "dialog opened with freqlim (views)": [v for v, _ in VIEWS],
+                       "views, written out": "None; (0, fs/2); (0, min(fn + 2 DF2, fs/2)); (df/2, fs/2); (fn/4, fs/2); (fn/2, min(3fn/2, fs/2)); "
+                       "(fn - 1.5 DF2, min(fn + 1.5 DF2, fs/2))",
+                       "click (SHIFT + left button)": list(CLICKS), "call forms of the interactive route": list(FORMS),
+                       "sub-lattice of the interactive route": "every (nxseg, fn/fs, xi) x view x method" + ("" if ctx.thorough else " (the three views with lower "
+                       "limit 0: method METHODS[(i_f + i_xi + k) mod 2] only)") + ", level 1; fs = FS_ALL[(i_f + 3 i_xi + k + 4 m) "
+                       "mod 8] over " + str(list(FS_ALL)) + ", channels = NCH[(i_f + i_xi + k) mod 3], band = "
+                       + ("both" if ctx.thorough else "BANDS[(i_nxseg + i_f + i_xi + k + m) mod 2]") + ", click = CLICKS[(i_f + k) mod 2], "
+                       "call form = FORMS[(i_xi + k + m) mod 2], limits as int where whole iff (i_nxseg + i_f + k) odd; k, m the indices of view and method",
                        "admissible": "2 xi f_n nxseg/fs >= 4 and f_n nxseg/(2 fs) >= 30"})
     items = []
     # longest segments first (they cost most), one (nxseg, f, xi, channels) slice per item
@@ -232,16 +465,26 @@ def explore(ctx):
                 else:
                     items += [(ctx.seed, nxseg, frel, xi, fss, (nch,)) for nch in NCH]
                 items.append((ctx.seed, nxseg, frel, xi, FS_FRAC, None, bool(ctx.thorough)))
+                items.append((ctx.seed, nxseg, frel, xi, None, None, bool(ctx.thorough), "dialog"))
     ctx.guard_share_limit = 0.5
     ctx.pmap(item, items, chunksize=1)
     ctx.require("EFDD within tolerance (function)", "FSDD within tolerance (function)", "EFDD within tolerance (setup)",
                 "FSDD within tolerance (setup)", "level-invariant")
     ctx.require(*[f"within tolerance at fs = {fs:g} Hz ({meth}, {route})"
                   for fs in FS_FRAC for meth in METHODS for route in ("function", "setup")])
+    # the interactive route: every view with both methods, views that hide lines below the click, both call forms and clicks
+    ctx.require(*[f"{meth} within tolerance, dialog opened with {view}" for view, _ in VIEWS for meth in METHODS])
+    ctx.require(*[f"within tolerance, click on a view that hides lines below it ({meth})" for meth in METHODS])
+    ctx.require(*[f"within tolerance, view hides >= 10 lines below it ({meth})" for meth in METHODS])
+    ctx.require(*[f"within tolerance, {form}, click {click}" for form in FORMS for click in CLICKS])
 
 
 def replay(case):
     t = Tally()
+    if case.get("route") == "plot":
+        plot_case(t, case["seed"], case["nxseg"], case["frel"], case["xi"], case["nch"], case["fs"], case["band"], case["method"],
+                  case["view"], case["click"], case["form"], case["limits_as_int"])
+        return t
     scales = SCALES if "scale" not in case else (case["scale"],)
     run_case(t, case["seed"], case["nxseg"], case["frel"], case["xi"], case["nch"], case["fs"], case["band"], case["method"],
              scales=scales, with_setup=("scale" not in case))
